@@ -280,5 +280,6 @@ PROPERTIES = {
             "computed from this token's content and this token's own indentation counters with base = leading blanks of its last line; (c) an interior line is left out "
             "only if it is a prefix of the base indentation or nothing remains after stripping it; a mismatch returns None; (d) everything appended is the literal's own "
             "lines, the configured newline or the two indent strings; (e) the interior-line terminator set {CR, LF} agrees with the lexer. "
+            "(f) the re-indenter writes with the same ReconstructionSettings value the reconstructor emits with (one StringFormatter, built from the wrapper's own settings); (d) also closes the set of operations that take the literal under construction mutably. "
             "Not decided: that each pushed line is intact and in order (loop invariant over strings).", []),
 }
